@@ -25,11 +25,13 @@ ASSUMPTIONS = [
     "dimse.get_msg returns (context id, primitive) or (None, None) on timeout/abort (C08 bounds the wait); responses arrive in "
     "the order the peer sent them (Queue is FIFO, A-LIB)",
     "code_to_category is used by contract (C28): the category is the PS3.7 category of the status",
-    "dsutils.decode either returns a dataset or raises; pretty_dataset/logging are pure",
+    "dsutils.decode either returns a dataset or raises; pydicom reads element values lazily, so an identifier that decode() "
+    "accepted may still raise when pretty_dataset() walks it for the log ('-lazy' response kinds); LOGGER calls are pure",
     "iterations of the response loop are independent (they share only the operation counter used for logging)",
 ]
-KINDS_FIND = ["none", "wrong-type", "invalid", "pending-ok", "pending-undecodable", "final", "repo-limit"]
-KINDS_GM = ["none", "wrong-type", "store-request", "invalid", "pending", "final-noid", "final-id-ok", "final-id-undecodable"]
+KINDS_FIND = ["none", "wrong-type", "invalid", "pending-ok", "pending-undecodable", "pending-undecodable-lazy", "final", "repo-limit"]
+KINDS_GM = ["none", "wrong-type", "store-request", "invalid", "pending", "final-noid", "final-id-ok", "final-id-undecodable",
+            "final-id-undecodable-lazy"]
 
 
 class RespLoop(LoopSpec):
@@ -116,7 +118,7 @@ class WrapTask(Task):
                     I.assume(z3.Not(pend))
                     if g.get("is_repo"):
                         I.assume(st.e != 0xB001)     # under Repository Query that warning is the non-final 'repo-limit' kind
-                    if kind in ("final-id-ok", "final-id-undecodable"):
+                    if kind in ("final-id-ok", "final-id-undecodable", "final-id-undecodable-lazy"):
                         # identifiers are only decoded for Cancel / Warning / Failure results
                         I.assume(z3.Or(st.e == 0xFE00, z3.And(st.e >= 0xA000, st.e <= 0xCFFF)))
                 return (SV(z3.Int("cx"), "int"), r)
@@ -140,10 +142,18 @@ class WrapTask(Task):
             if g["kind"] in ("pending-undecodable", "final-id-undecodable"):
                 raise PyRaise(ExcVal("Exception", ("cannot decode the identifier",)))
             d = Env("decoded_identifier")
-            d.truth = I.fresh("bool", "identifier non-empty").e
+            d.truth = True if g["kind"].endswith("-lazy") else I.fresh("bool", "identifier non-empty").e
             return d
         c.summaries["pynetdicom.dsutils:decode"] = dec
-        c.summaries["pynetdicom.dsutils:pretty_dataset"] = lambda I, a, k: []
+
+        def pretty(I, args, kw):
+            g = I.ghost
+            I.trace.append(Ev("pretty_dataset", (args[0],)))
+            if g.get("kind", "").endswith("-lazy"):
+                # the element values are converted only now: the identifier turns out to be undecodable
+                raise PyRaise(ExcVal("Exception", ("cannot convert an element value of the identifier",)))
+            return []
+        c.summaries["pynetdicom.dsutils:pretty_dataset"] = pretty
         c.summaries[f"{ASSOC}:Association._handle_no_response"] = lambda I, a, k: I.trace.append(Ev("handle_no_response"))
         c.summaries[f"{ASSOC}:Association._c_store_scp"] = lambda I, a, k: I.trace.append(Ev("c_store_scp", (a[1],)))
         c.ext_models["pydicom.dataset.Dataset"] = lambda I, a, k: Env("Dataset()")
@@ -165,7 +175,8 @@ class WrapTask(Task):
         I.ob(f"{P}/no-lock-held-while-the-iterator-is-suspended", all(d == 0 for (_v, d) in ys),
              detail=f"{kind}: lock depths at yields {[d for _v, d in ys]}")
         I.ob(f"{P}/lock-released-at-the-end-of-the-iteration", lock_depth(tr) == 0)
-        final = kind in ("none", "wrong-type", "invalid", "final", "final-noid", "final-id-ok", "final-id-undecodable") or \
+        final = kind in ("none", "wrong-type", "invalid", "final", "final-noid", "final-id-ok", "final-id-undecodable",
+                         "final-id-undecodable-lazy") or \
             (kind == "repo-limit" and not g.get("is_repo"))      # 0xB001 is an ordinary (final) Warning outside Repository Query
         I.ob(f"{P}/iteration-stops-exactly-at-the-first-non-Pending-or-unusable-response", ended == final, detail=f"{kind}: ended={ended}")
         if final:
@@ -183,7 +194,12 @@ class WrapTask(Task):
             I.ob(f"{P}/pending-response:status-and-decoded-identifier", isinstance(v, tuple) and isinstance(v[1], Env) and v[1].path == "decoded_identifier")
         if kind in ("pending-undecodable", "final-id-undecodable") and len(ys) >= 1:
             I.ob(f"{P}/undecodable-identifier:status-with-None", isinstance(ys[0][0], tuple) and ys[0][0][1] is None)
-        if kind in ("pending-ok", "pending-undecodable", "pending", "repo-limit", "final", "final-noid", "final-id-ok", "final-id-undecodable") and ys:
+        if kind.endswith("-lazy") and len(ys) >= 1 and "pretty_dataset" in names:
+            # the decode failure was detected (and logged) while the identifier was walked for the log
+            I.ob(f"{P}/identifier-found-undecodable-while-logging:status-with-None", isinstance(ys[0][0], tuple) and ys[0][0][1] is None,
+                 detail=repr(ys[0][0]))
+        if kind in ("pending-ok", "pending-undecodable", "pending-undecodable-lazy", "pending", "repo-limit", "final", "final-noid", "final-id-ok",
+                    "final-id-undecodable", "final-id-undecodable-lazy") and ys:
             v = ys[0][0]
             sets = [e for e in tr if e.name == "setattr" and e.args[1] == "Status"]
             I.ob(f"{P}/surfaced-status-is-the-received-status", isinstance(v, tuple) and isinstance(v[0], Env) and
